@@ -909,6 +909,19 @@ def _least_squares_proxy(real):
     return wrapper
 
 
+_FLOAT_CALL_MODULES = ("EasyFEA.Simulations._elastic", "EasyFEA.Simulations._hyperelastic")  # modules whose only use of the name `float` is the call float(total)
+
+
+def _float_passthrough(x=0.0):
+    """float(total energy): a symbolic scalar stays symbolic in symbolic mode (stub, recorded); anything else is the builtin conversion"""
+    if _ACTIVE[0]:
+        v = x.item() if isinstance(x, _np.ndarray) and x.ndim == 0 else x
+        if isinstance(v, Sym):
+            USED_STUBS.add("float(symbolic scalar) -> the symbolic scalar (total energies)")
+            return v
+    return float(x)
+
+
 def install():
     """Replace np / sparse / sla in every loaded EasyFEA module by the proxies (idempotent).  With
     symbolic mode off the proxies forward to numpy/scipy, so behaviour is unchanged."""
@@ -930,6 +943,8 @@ def install():
         sla = getattr(m, "sla", None)
         if isinstance(sla, types.ModuleType) and sla.__name__ == "scipy.sparse.linalg":
             m.sla = SLA
+        if m.__name__ in _FLOAT_CALL_MODULES and "float" not in vars(m):
+            m.float = _float_passthrough
         ls = getattr(m, "least_squares", None)
         if ls is not None and getattr(ls, "__module__", "").startswith("scipy.optimize"):
             m.least_squares = _least_squares_proxy(ls)
